@@ -87,6 +87,16 @@ pub struct Cfg {
     /// whale-sized donations to the collector (more than a pool reserve) are generated
     pub whale_inflows: bool,
     pub weights: [u32; N_OPS],
+    /// weight of `Op::SetDuration` (kept outside `weights` so that older replay files still load)
+    #[serde(default)]
+    pub w_set_duration: u32,
+    /// biased run: a few epochs -> the owner raises the duration -> the last user, who never bonded,
+    /// bonds in the middle of an epoch -> that user claims again and again, also after later epochs
+    #[serde(default)]
+    pub late_bonder_script: bool,
+    /// number of epochs the script waits for before the owner raises the duration
+    #[serde(default)]
+    pub script_epochs: u32,
 }
 
 #[derive(Serialize, Deserialize, Clone, Debug, PartialEq)]
@@ -106,6 +116,8 @@ pub enum Op {
     /// several claims in this block, one tx each, in this order (duplicates allowed)
     ClaimMany { order: Vec<usize> },
     SetGrace { value: u64, by_owner: bool },
+    /// fee distributor UpdateConfig { epoch_config: { duration, genesis_epoch as configured } }
+    SetDuration { duration_ns: u64, by_owner: bool },
     SetTake { rate: Option<String>, dao: Option<usize>, active: Option<bool>, by_owner: bool },
     /// ForwardFees sent to the collector by the actor (not the distributor)
     ForwardDirect { as_owner: bool },
@@ -161,6 +173,14 @@ pub struct Model {
     pub seq: u64,
     pub began_seq: Vec<u64>,
     pub created_seq: Vec<u64>,
+    /// an owner's SetDuration changed the configured duration while epochs already existed
+    pub dur_changed_mid: bool,
+    /// ... and the last such change was an increase
+    pub dur_raised_mid: bool,
+    /// the user has bonded at some point
+    pub ever_bonded: Vec<bool>,
+    /// the user's first bonding ever happened after a mid-history duration change
+    pub late_first: Vec<bool>,
 }
 
 pub struct Hub {
@@ -481,27 +501,62 @@ impl Scenario for Hub {
             }
             n
         };
+        let faults = rng.chance(1, 3);
+        let liquidity = *rng.pick(&[1_000_000_000u128, 1_000_000_000_000, 1_000_000_000_000, 50_000_000]);
+        let pair_fees = [gen_pair_fees(rng), gen_pair_fees(rng), gen_pair_fees(rng)];
+        let vault_native_is_whale = rng.chance(1, 3);
+        let vault_fees = [
+            [rng.pick(&["0.001", "0.01", "0", "0.0001"]).to_string(), rng.pick(&["0.001", "0.003", "0"]).to_string()],
+            [rng.pick(&["0.001", "0.02", "0", "0.000001"]).to_string(), rng.pick(&["0.001", "0.003", "0"]).to_string()],
+        ];
+        let unbonding_ns = *rng.pick(&[1_000_000_000u64, 3_600_000_000_000, DAY_NS, 3 * DAY_NS]);
+        let growth = rng.pick(&["0", "1", "0.000001", "0.5"]).to_string();
+        let whale_inflows = rng.chance(1, 10);
+        // epoch duration changes mid-history
+        let mut w_set_duration = match prop {
+            "C20" => 4,
+            "C09" => 3,
+            _ => 2,
+        };
+        if rng.chance(1, 3) {
+            w_set_duration = 0;
+        }
+        let late_bonder_script = match prop {
+            "C09" => rng.chance(1, 5),
+            _ => rng.chance(1, 12),
+        };
+        let script_epochs = rng.range(2, 4) as u32;
+        let mut max_steps = max_steps;
+        let mut genesis_offset_ns = genesis_offset_ns;
+        if late_bonder_script {
+            // the script needs room, and a genesis near the clock (with a genesis at the unix epoch the
+            // lair's arithmetic epoch id is thousands ahead whatever the duration is)
+            max_steps = max_steps.max(32);
+            if genesis_offset_ns == u64::MAX {
+                genesis_offset_ns = 60_000_000_000;
+            }
+        }
         Cfg {
             n_users,
             max_steps,
-            faults: rng.chance(1, 3),
-            liquidity: *rng.pick(&[1_000_000_000u128, 1_000_000_000_000, 1_000_000_000_000, 50_000_000]),
-            pair_fees: [gen_pair_fees(rng), gen_pair_fees(rng), gen_pair_fees(rng)],
+            faults,
+            liquidity,
+            pair_fees,
             third_pair,
-            vault_native_is_whale: rng.chance(1, 3),
-            vault_fees: [
-                [rng.pick(&["0.001", "0.01", "0", "0.0001"]).to_string(), rng.pick(&["0.001", "0.003", "0"]).to_string()],
-                [rng.pick(&["0.001", "0.02", "0", "0.000001"]).to_string(), rng.pick(&["0.001", "0.003", "0"]).to_string()],
-            ],
+            vault_native_is_whale,
+            vault_fees,
             grace,
             duration_ns,
             genesis_offset_ns,
-            unbonding_ns: *rng.pick(&[1_000_000_000u64, 3_600_000_000_000, DAY_NS, 3 * DAY_NS]),
-            growth: rng.pick(&["0", "1", "0.000001", "0.5"]).to_string(),
+            unbonding_ns,
+            growth,
             routes_at_start,
             take_start,
-            whale_inflows: rng.chance(1, 10),
+            whale_inflows,
             weights,
+            w_set_duration,
+            late_bonder_script,
+            script_epochs,
         }
     }
 
@@ -721,6 +776,8 @@ impl Scenario for Hub {
                 began: vec![None; n],
                 has_cursor: vec![false; n],
                 began_seq: vec![0; n],
+                ever_bonded: vec![false; n],
+                late_first: vec![false; n],
                 pair_registered: vec![true; n_pairs],
                 pair_paused: vec![false; n_pairs],
                 routes: [None, None],
